@@ -108,6 +108,9 @@ pub fn execute(plan: &Plan, choices: Option<Vec<u32>>, record: bool, props: &[St
                 (Op::Close, Some(_)) if chaos => add("chaos_close_at_arbitrary_step", 1),
                 (Op::UpdateMaxCost { .. }, Some(_)) => add("capacity_change", 1),
                 (Op::Jump { .. }, Some(_)) => add("clock_jump_op", 1),
+                (Op::StallSelf { .. }, Some(_)) => add("stall_placed_inside_the_next_operation", 1),
+                (Op::WhileHolding { .. }, Some(_)) => add("call_made_while_holding_a_reference", 1),
+                (Op::Insert { ttl_ns, .. }, Some(_)) if *ttl_ns >= u64::MAX - 3 => add("ttl_beyond_any_representable_deadline", 1),
                 (Op::Sleep { .. }, Some(_)) => add("virtual_sleep", 1),
                 (Op::Insert { .. }, Some(Res::Bool(false))) => add("insert_refused_or_dropped", 1),
                 (Op::Get { hold, .. }, Some(_)) if *hold > 0 => add("value_ref_held_across_steps", 1),
@@ -124,6 +127,9 @@ pub fn execute(plan: &Plan, choices: Option<Vec<u32>>, record: bool, props: &[St
         add("planned_stalls", plan.sim.stalls.len() as u64);
         add("runs_with_eager_clock", (plan.sim.eager_clock_permille > 0) as u64);
         add("drop_all_handles", (plan.finale == Finale::DropAll) as u64);
+        add("built_through_constructor_defaults", plan.cfg.use_defaults as u64);
+        add("builder_recipe_other_than_the_plain_one", (plan.cfg.recipe != 0) as u64);
+        add("more_than_25_client_threads", (plan.clients.len() > 25) as u64);
         if let Some(t) = plan.tags.iter().find(|t| t.starts_with("chaos_offset_")) {
             add(&format!("enumerated_{}", t), 1);
         }
